@@ -50,7 +50,17 @@ import (
 
 type sinkCall struct {
 	ids    []int
-	decide chan string // "accept" | "fail" | "panic"
+	decide chan string // "accept" | "fail" | "panic"; capacity 1
+	once   sync.Once
+}
+
+// give hands the call its decision. Only the first decision counts: the worker clears p.pending[w] a moment AFTER
+// it has taken the decision, so the harness can still see a call it has already decided (on a loaded machine that
+// window outlasts quiesce) - a second, blocking send on the unbuffered channel used to hang the run for good.
+func (c *sinkCall) give(d string) bool {
+	first := false
+	c.once.Do(func() { c.decide <- d; first = true })
+	return first
 }
 
 type pipe struct {
@@ -169,7 +179,7 @@ func (p *pipe) sinkWait(w int, ids []int) string {
 		return d // injected permanent fault: every call fails (or panics) from now on
 	}
 	p.mu.Unlock()
-	c := &sinkCall{ids: ids, decide: make(chan string)}
+	c := &sinkCall{ids: ids, decide: make(chan string, 1)}
 	p.mu.Lock()
 	p.pending[w] = c
 	p.arrivals++
@@ -542,7 +552,9 @@ func (p *pipe) gate(w int, decision string) string {
 	if c == nil {
 		return "nopending"
 	}
-	c.decide <- decision
+	if !c.give(decision) {
+		return "nopending" // a call that was already decided: the worker is past it
+	}
 	p.quiesce()
 	return decision
 }
@@ -562,10 +574,7 @@ func (p *pipe) stop() {
 		c := p.pending[w]
 		p.mu.Unlock()
 		if c != nil {
-			select {
-			case c.decide <- "fail":
-			case <-time.After(100 * time.Millisecond):
-			}
+			c.give("fail")
 		}
 	}
 	if !p.bdead {
@@ -602,12 +611,7 @@ func (p *pipe) stop() {
 		for w, c := range p.pending {
 			if c != nil {
 				any = true
-				go func(c *sinkCall) {
-					select {
-					case c.decide <- "fail":
-					case <-time.After(200 * time.Millisecond):
-					}
-				}(c)
+				c.give("fail")
 				p.pending[w] = nil
 			}
 		}
@@ -877,7 +881,7 @@ func pipelineRun(c Case) ([]string, []string) {
 					p.mu.Lock()
 					p.deadCalls++
 					p.mu.Unlock()
-					c.decide <- d
+					c.give(d)
 				}
 			case "closeinput":
 				if !p.inClosed {
@@ -927,8 +931,9 @@ func pipelineRun(c Case) ([]string, []string) {
 						if c == nil {
 							break
 						}
-						c.decide <- "accept"
-						progress = true
+						if c.give("accept") {
+							progress = true
+						}
 						p.quiesce()
 					}
 				}
